@@ -143,14 +143,14 @@ pub fn c12(rep: &mut Report) {
     let results = run_sched_legs(rep, Judge::Nothing, &|l| l.name.contains("compress"));
     validate_r1(rep, &results);
     // one distinct archive per (writer, source, options minus buffered-chunks)
-    let mut groups: BTreeMap<String, BTreeMap<String, (String, String)>> = BTreeMap::new();
+    let mut groups: BTreeMap<String, BTreeMap<String, (String, String, Value, Value)>> = BTreeMap::new();
     for (leg, v) in &results {
         let mut g = leg.spec.clone();
         g["buffers"] = json!(null);
         let e = groups.entry(g.to_string()).or_default();
         for (k, o) in v["outcomes"].as_object().unwrap() {
             if k.starts_with("ok|") {
-                e.entry(k.clone()).or_insert((leg.name.clone(), o["example_schedule"].as_str().unwrap_or("").to_string()));
+                e.entry(k.clone()).or_insert((leg.name.clone(), o["example_schedule"].as_str().unwrap_or("").to_string(), o["example_choices"].clone(), json!({"spec": leg.spec, "reduce": leg.reduce})));
             }
         }
     }
@@ -186,7 +186,7 @@ pub fn c12(rep: &mut Report) {
     for (g, outs) in &groups {
         if outs.len() > 1 {
             let gv: Value = serde_json::from_str(g).unwrap();
-            rep.agg.viol("archive-differs-between-schedules", || json!({"subject": gv, "distinct_archives": outs.iter().map(|(k, (leg, s))| json!({"outcome": k, "leg": leg, "schedule": s})).collect::<Vec<_>>()}));
+            rep.agg.viol("archive-differs-between-schedules", || json!({"subject": gv, "distinct_archives": outs.iter().map(|(k, (leg, s, ch, sp))| json!({"outcome": k, "leg": leg, "schedule": s, "choices": ch, "subject": sp["spec"], "reduce": sp["reduce"]})).collect::<Vec<_>>()}));
         }
     }
     rep.set("groups", json!(groups.len()));
@@ -807,6 +807,25 @@ pub fn accessor_check(bytes: &[u8], agg: &mut Agg, detail: &dyn Fn(&str, Value) 
 }
 
 pub fn replay(pid: &str, v: &Value) -> bool {
+    if let Some(list) = v.get("distinct_archives").and_then(|l| l.as_array()) {
+        // C12: replay each recorded schedule straight and compare the archives they produce
+        let mut keys = BTreeSet::new();
+        for d in list {
+            let subject = subject_from_spec(&d["subject"]);
+            let dir = scratch_dir("replay");
+            subject.setup(dir.path());
+            let choices: Vec<usize> = d["choices"].as_array().map(|a| a.iter().map(|x| x.as_u64().unwrap() as usize).collect()).unwrap_or_default();
+            match run_once(subject.as_ref(), dir.path(), &choices, d["reduce"].as_bool().unwrap_or(true)) {
+                Ok(ex) => {
+                    let obs = subject.observe(dir.path(), &ex.result);
+                    println!("replay: schedule {} -> {}", ex.labels.join(" "), obs.key);
+                    keys.insert(obs.key);
+                }
+                Err(e) => machinery(e),
+            }
+        }
+        return keys.len() > 1;
+    }
     if v.get("choices").is_some() {
         // a schedule: replay it straight, without the explorer
         let subject = subject_from_spec(&v["subject"]);
@@ -828,11 +847,19 @@ pub fn replay(pid: &str, v: &Value) -> bool {
     let case = Case { cfg, comp, hash_len: v["hash_len"].as_u64().unwrap_or(64) as usize, buffers: v["buffers"].as_u64().unwrap_or(1) as usize, source: unhex(v["source"].as_str().unwrap_or("")) };
     let rt = tokio::runtime::Builder::new_current_thread().enable_all().build().unwrap();
     let mut agg = Agg::default();
-    if v["writer"].as_str() == Some("cli") {
-        let dir = scratch_dir("replay");
-        cli_roundtrip(&rt, dir.path(), &case, &mut agg, judge);
-    } else {
-        lib_roundtrip(&rt, &case, &mut agg, judge);
+    // a sweep case runs on the real blocking pool: its schedule is not recorded, so the case is
+    // repeated (schedule-dependent failures are replayed deterministically by the explorer legs)
+    for attempt in 0..40 {
+        if v["writer"].as_str() == Some("cli") {
+            let dir = scratch_dir("replay");
+            cli_roundtrip(&rt, dir.path(), &case, &mut agg, judge);
+        } else {
+            lib_roundtrip(&rt, &case, &mut agg, judge);
+        }
+        if !agg.classes.is_empty() {
+            println!("replay: reproduced at attempt {}", attempt + 1);
+            break;
+        }
     }
     for (k, c) in &agg.classes {
         println!("replay: class={} {}", k, c.examples[0]);
